@@ -587,7 +587,49 @@ def d6_accumulators(ctx):
         ctx.ok(repo.fn(ROOT), repo.fn(ROOT).node, "no narrow accumulator", "no count is accumulated in an 8-bit type", key="accum:none")
 
 
+def d7_row_addressing(ctx):
+    ctx.rule("D7", "feature rows are written back by position, or by label only while the labels are the default 0..N-1 numbering (unique)")
+    repo = ctx.repo
+    funcs = [repo.functions[q] for q in reachable(repo, ROOT)]
+    # frames built with a caller-supplied index: their labels need not be unique
+    custom = []
+    for fi in funcs:
+        for c in find(fi.node, ast.Call, nested=False):
+            if call_name(c) == "DataFrame":
+                ix = kwarg(c, "index")
+                if ix is not None and not (isinstance(ix, ast.Constant) and ix.value is None):
+                    du = DefUse(fi.node)
+                    v = expand_name(du, ix, c) if isinstance(ix, ast.Name) else ix
+                    rng = isinstance(v, ast.Call) and call_name(v) in ("arange", "RangeIndex", "range")
+                    if not rng:
+                        custom.append((fi, c))
+    stores = []
+    for fi in funcs:
+        for st in walk_function(fi.node):
+            if isinstance(st, ast.Assign):
+                for t in st.targets:
+                    if isinstance(t, ast.Subscript) and isinstance(t.value, ast.Attribute) and t.value.attr == "loc":
+                        stores.append((fi, st, t))
+    if not stores:
+        ctx.note("no label-based (.loc) write-back in the feature pipeline")
+    for fi, st, t in stores:
+        du = DefUse(fi.node)
+        sel = t.slice.elts[0] if isinstance(t.slice, ast.Tuple) else t.slice
+        kind = _mask_kind(du, sel, st)
+        if kind == "mask":
+            ctx.ok(fi, st, st, "rows selected by a boolean mask (positional)", key="rows:" + norm(st)[:40])
+            continue
+        unique_checked = any("is_unique" in src(n) or "has_duplicates" in src(n) or "verify_integrity" in src(n) for f2, c in custom for n in ast.walk(f2.node)
+                             if isinstance(n, (ast.Attribute, ast.keyword)))
+        where = f"`{src(custom[0][1])[:60]}` in {custom[0][0].qualname.rsplit('.', 1)[1]}" if custom else ""
+        ctx.check(not custom or unique_checked, fi, st, st, "labels are the default 0..N-1 numbering: one label, one row",
+                  f"`{src(st)[:70]}` writes rows back BY LABEL, but the frame can carry caller-supplied labels ({where}) that need "
+                  "not be unique (cluster ids, several waveforms per cluster): every row sharing the label is overwritten with one row's values - a waveform's features then "
+                  "come from another waveform of the batch", key="rows:" + norm(st)[:40], name_free=True)
+
+
 def run(ctx):
+    ctx.run(d7_row_addressing)
     ctx.run(d6_accumulators)
     ctx.run(dS_shared)
     ctx.run(d1_recovery_bound)
